@@ -128,3 +128,24 @@ fn d3_stake_without_oracle_does_not_panic() {
     .unwrap();
     assert!(res.messages.iter().filter_map(|m| decode_exec(&m.msg)).next().is_none());
 }
+
+/// D5 (C16): ResumeContract is documented as "sets the totals to exactly the values supplied";
+/// the admin supplying a zero staked total with a non-zero LST total must get a result or a
+/// typed error, not a division-by-zero panic in the rate computation.
+#[test]
+fn d5_resume_with_zero_staked_total_does_not_panic() {
+    let mut deps = init(Some(OSMO4.into()));
+    let r = std::panic::catch_unwind(std::panic::AssertUnwindSafe(|| {
+        execute(
+            deps.as_mut(),
+            mock_env(),
+            mock_info(OSMO3, &[]),
+            ExecuteMsg::ResumeContract {
+                total_native_token: Uint128::zero(),
+                total_liquid_stake_token: Uint128::new(5),
+                total_reward_amount: Uint128::zero(),
+            },
+        )
+    }));
+    assert!(r.is_ok(), "ResumeContract panicked (division by zero in the rate computation)");
+}
